@@ -63,8 +63,14 @@ func (c C17Case) Describe() string {
 
 func genC17(t *rapid.T) C17Case {
 	var c C17Case
-	for i, n := 0, rapid.IntRange(1, 12).Draw(t, "nops"); i < n; i++ {
-		o := Op17{K: rapid.SampledFrom([]string{"nowait", "nowait", "nowait", "wait", "waitacks", "waitacks", "getrules", "setpid", "setpidwait"}).Draw(t, "k")}
+	nops, kinds := rapid.IntRange(1, 12).Draw(t, "nops"), []string{"nowait", "nowait", "nowait", "wait", "waitacks", "waitacks", "getrules", "setpid", "setpidwait"}
+	if rapid.IntRange(0, 11).Draw(t, "longrun") == 0 {
+		// dozens to hundreds of unacknowledged requests on one client before anybody waits
+		nops = rapid.SampledFrom([]int{66, 65, 64, 130, 257, 300, 33}).Draw(t, "runlen")
+		kinds = []string{"nowait", "nowait", "nowait", "nowait", "nowait", "nowait", "nowait", "nowait", "nowait", "nowait", "nowait", "nowait", "nowait", "nowait", "nowait", "nowait", "nowait", "nowait", "nowait", "waitacks"}
+	}
+	for i, n := 0, nops; i < n; i++ {
+		o := Op17{K: rapid.SampledFrom(kinds).Draw(t, "k")}
 		o.U32 = rapid.Uint32Range(0, 9999).Draw(t, "u32")
 		if rapid.IntRange(0, 3).Draw(t, "fail") == 0 {
 			o.Errno = rapid.SampledFrom([]int{int(syscall.EPERM), int(syscall.EINVAL), int(syscall.EBUSY), int(syscall.ENOMEM)}).Draw(t, "errno")
@@ -372,6 +378,9 @@ func propC17(c C17Case) error {
 	}
 	if errAmong {
 		hC17.Class("history-with-error-among-acks")
+	}
+	if nowaits >= 60 {
+		hC17.Class("history-with-60-or-more-nowait-requests")
 	}
 	if nowaits >= 2 && waits >= 2 {
 		hC17.Class("history-with-2-nowait-and-2-waits")
